@@ -195,6 +195,14 @@ func TestC01(t *testing.T) {
 	rapid.Check(t, func(t *rapid.T) {
 		d := genDoc(o).Draw(t, "doc")
 		d.Flags.Track = 1
+		if coin(t, "sub-tick-chord", 6) {
+			// a chord shorter than half a tick still is a chord: its pitches are struck (and released at once)
+			j := rapid.IntRange(0, len(d.Insts)-1).Draw(t, "sub-at")
+			if d.Insts[j].Chord != nil {
+				d.Insts[j].Values = rapid.SampledFrom([][]Frac{{{1, 1921}}, {{1, 4096}}, {{1, 4000}, {1, 4000}}, {{3, 7000}}}).Draw(t, "sub-values")
+				r.Class("chord-shorter-than-half-a-tick", 1)
+			}
+		}
 		c := C01Case{d}
 		c01Stats(r, d, d.Model(960))
 		r.Sample(map[string]any{"args": d.Flags.Argv(), "yaml": d.YAML()})
